@@ -1,6 +1,7 @@
 """C04 - JWE encrypt-then-decrypt round trip (claimed for four structural clauses only).
 
 R04.1 forbidden combinations are refused at encryption time      R04.2 zip mirror (compress before encrypt / decompress after decrypt, same condition)
+R04.5 AAD predicate mirror (encrypt / JSON writer / decrypt)
 R04.3 writer / reader member agreement of the three serializations R04.4 header merge order and add_header placement
 """
 from __future__ import annotations
@@ -256,7 +257,51 @@ def r04_4(ctx) -> None:
               "compact -> parent.protected; JSON -> recipient.header", construct="add_header placement")
 
 
+def r04_5(ctx) -> None:
+    """the JWE AAD member takes part under one and the same predicate when encrypting, when writing the JSON member and when
+    decrypting: `if obj.aad` on one side and `if obj.aad is not None` on another makes aad=b"" undecryptable"""
+    eng = ctx.eng
+    P = eng.prog
+    enc_i = impls(eng, "rfc7516.models:JWEEncModel", "encrypt", include_abstract=True)
+    dec_i = impls(eng, "rfc7516.models:JWEEncModel", "decrypt", include_abstract=True)
+    fns = {}
+    for side, crypt in (("encrypt", enc_i), ("decrypt", dec_i)):
+        cs = [s for s in sites_calling(eng, crypt) if isinstance(s.node, ast.Call) and s.kind in ("method", "cha")]
+        if len(cs) != 1:
+            raise AnalysisError(f"R04.5: enc.{side} call site not unique")
+        fns[side] = cs[0].fn
+    writers = [f for f in P.mod("rfc7516.json").functions if "represent" in f.name and any(isinstance(n, ast.Constant) and n.value == "aad" for n in fn_nodes(f))]
+    if not writers:
+        raise AnalysisError("R04.5: JSON writer of the aad member not found")
+    fns["write"] = writers[0]
+    preds = {}
+    for side, fn in fns.items():
+        cfg = cfg_of(fn)
+        atoms = set()
+        for t in cfg.nodes:
+            if t.kind != "test":
+                continue
+            hit = [x for x in ast.walk(t.ast) if isinstance(x, ast.Attribute) and x.attr == "aad" and isinstance(x.value, ast.Name)]
+            if not hit:
+                continue
+            txt = norm(t.ast)
+            for h in hit:
+                txt = txt.replace(norm(h), "$.aad")
+            # the outcome under which the member takes part
+            uses = [n for n in cfg.nodes if n.kind == "stmt" and any(isinstance(x, ast.Attribute) and x.attr == "aad" for x in ast.walk(n.ast)) and
+                    not isinstance(n.ast, ast.If)]
+            pos = any(u in cfg.reachable(s0, [t]) for s0 in succ_by_label(cfg, t, "true") for u in uses)
+            neg = any(u in cfg.reachable(s0, [t]) for s0 in succ_by_label(cfg, t, "false") for u in uses)
+            atoms.add((txt, "true" if pos and not neg else ("false" if neg and not pos else "?")))
+        preds[side] = sorted(atoms)
+    vals = list(preds.values())
+    ok = all(v and v == vals[0] for v in vals) and all(lab != "?" for v in vals for _, lab in v)
+    ctx.check(ok, "R04.5", fns["encrypt"], fns["encrypt"].node, "aad condition mirror", "the JWE AAD member is used under different predicates when encrypting, when writing the JSON serialization and "
+              f"when decrypting: {preds} (an AAD for which the predicates differ, e.g. b\"\", cannot be decrypted)", "the same test of obj.aad at the three sites", construct="aad condition mirror")
+
+
 def run(ctx) -> None:
+    ctx.guard(r04_5)
     ctx.guard(r04_1)
     ctx.guard(r04_2)
     ctx.guard(r04_3)
